@@ -18,7 +18,7 @@ ID = 'C36'
 LEVEL = 'exploration'
 RULE = ('A case is one fork history. sqlite: parent state at the fork in {disconnected, idle pooled connection, open session '
         'after a read, open session with a flushed uncommitted write, open session with an unflushed object, open session '
-        'after commit, a @db_session generator suspended after a read; grid only: another THREAD of the parent inside a write transaction} x order {child first, parent first} x child script (read, write+commit, db.get_connection, disconnect, '
+        'after commit, a @db_session generator suspended after a read; grid only: another THREAD of the parent inside a write transaction, optionally a second thread queued behind it inside pony} x database {file; in a small always-run family and 1/6 of the random histories: :memory: and :sharedmemory:, where only the place of the statements and the data of the parent itself are judged} x order {child first, parent first} x child script (read, write+commit, db.get_connection, disconnect, '
         'rollback, read whose first connection attempt fails once (fault injected in the sqlite3 factory), generator resume/write, nested fork with its own script; length 1..5) x parent script after the fork (read, write, commit, '
         'end_session, disconnect; length 0..4); a complete grid of 6x2x7x3 short scripts + 20 generator histories (quick tier: alternating halves by seed parity) plus hypothesis-drawn longer ones. '
         'pool: op lists over connect/use/release/drop/disconnect/gc/fail_next (the next driver-level connect of the process raises once) with forks nested to depth 3 (including chains whose intermediate processes do nothing) on the generic Pool and on '
@@ -114,6 +114,24 @@ def pool_chain_cases():
     return out
 
 
+def always_cases():
+    """small families that run in EVERY quick run (not halved by seed parity)"""
+    out = []
+    # in-memory databases (':memory:' and the shared-cache ':sharedmemory:'): the pool keeps the only connection for ever;
+    # nothing is shared with a forked process, so only WHERE statements are issued (and the parent's own data) is judged
+    for db in ('memory', 'sharedmemory'):
+        for state in ('idle', 'open_read', 'open_write', 'after_commit'):
+            out.append({'kind': 'sqlite', 'db': db, 'parent_state': state, 'order': 'child_first',
+                        'child': ['read', 'write'], 'parent_after': ['commit', 'read']})
+        out.append({'kind': 'sqlite', 'db': db, 'parent_state': 'idle', 'order': 'parent_first',
+                    'child': [['fork', ['disconnect', 'read', 'write']]], 'parent_after': ['write']})
+    # two other threads of the parent at the fork: one inside a write transaction, one queued behind it inside pony
+    for child in (['read'], ['write'], [['fork', ['read', 'write']]]):
+        out.append({'kind': 'sqlite', 'parent_state': 'threads_queued_write', 'order': 'child_first',
+                    'child': child, 'parent_after': []})
+    return out
+
+
 def pool_grid_cases():
     out = pool_chain_cases()
     for kind in ('generic', 'oracle'):
@@ -203,6 +221,8 @@ def evaluate(ctx, case):
             classes.append('connect_fault')
         if case['parent_state'] == H.GEN_STATE:
             classes.append('suspended_generator')
+        if case.get('db', 'file') != 'file':
+            classes.append('db:' + case['db'])
     else:
         nt = _pool_nontrivial(case['ops'])
         classes = ['pool:' + case['pool']]
@@ -220,10 +240,11 @@ def evaluate(ctx, case):
 
 def run(ctx):
     # 1. complete grids of short histories (pool grid first: it is cheap)
-    for k, case in enumerate(pool_grid_cases() + grid_cases()):
+    fixed = always_cases()
+    for k, case in enumerate(fixed + pool_grid_cases() + grid_cases()):
         if k % ctx.nshards != ctx.shard:
             continue
-        if ctx.tier == 'quick' and ((k // ctx.nshards) + ctx.base_seed) % 2:
+        if k >= len(fixed) and ctx.tier == 'quick' and ((k // ctx.nshards) + ctx.base_seed) % 2:
             continue        # quick tier: half of the grid, the other half with the next seed (a fork costs ~50 ms here)
         ctx.check_time()
         evaluate(ctx, case)
@@ -269,7 +290,14 @@ def run(ctx):
         'child': st.lists(gchild_op, min_size=1, max_size=5),
         'parent_after': st.lists(st.sampled_from(['gen_next', 'gen_write', 'read', 'write']), max_size=4),
     }).map(normalise)
-    sqlite_case = st.one_of(plain_case, plain_case, plain_case, plain_case, gen_case)
+    mem_case = st.fixed_dictionaries({
+        'kind': st.just('sqlite'), 'db': st.sampled_from(['memory', 'sharedmemory']),
+        'parent_state': st.sampled_from(['idle', 'idle', 'disconnected', 'open_read', 'open_write', 'after_commit']),
+        'order': st.sampled_from(['child_first', 'parent_first']),
+        'child': st.lists(child_op, min_size=1, max_size=4),
+        'parent_after': st.lists(st.sampled_from(['read', 'write', 'commit', 'end_session', 'disconnect']), max_size=3),
+    })
+    sqlite_case = st.one_of(plain_case, plain_case, plain_case, plain_case, gen_case, mem_case)
 
     def t_sqlite(case):
         evaluate(ctx, case)
@@ -277,10 +305,10 @@ def run(ctx):
     # alternating rounds, so that a wall-clock stop on a loaded machine leaves both parts represented
     rounds = ctx.scale(1, 4)
     for r in range(rounds):
-        ctx.run_test(t_pool, dict(case=pool_case), max_examples=ctx.scale(12, 30), name='pool_histories_%d' % r)
+        ctx.run_test(t_pool, dict(case=pool_case), max_examples=ctx.scale(10, 30), name='pool_histories_%d' % r)
         if ctx.violation or ctx.extra.get('stopped_by_wall_clock'):
             return
-        ctx.run_test(t_sqlite, dict(case=sqlite_case), max_examples=ctx.scale(12, 40), name='sqlite_histories_%d' % r)
+        ctx.run_test(t_sqlite, dict(case=sqlite_case), max_examples=ctx.scale(10, 40), name='sqlite_histories_%d' % r)
         if ctx.violation or ctx.extra.get('stopped_by_wall_clock'):
             return
 
